@@ -1,8 +1,8 @@
 # -*- coding: utf-8 -*-
 
-import copy
 from typing import Any, Dict, Mapping, Optional, Union
 
+from .._utils import copy_containers
 from ..exc import InvalidValue, UnknownVariable
 from ..lang import ast as _ast
 from ..schema.scalars import SPECIFIED_SCALAR_TYPES
@@ -110,7 +110,7 @@ def _extract_input_object(
         target_name = field.python_name
         if name not in node_fields:
             if field.has_default_value:
-                coerced[target_name] = copy.deepcopy(field.default_value)
+                coerced[target_name] = copy_containers(field.default_value)
             elif isinstance(field.type, NonNullType):
                 raise InvalidValue("Missing field %s" % name, [node])
         else:
